@@ -12,7 +12,7 @@ RULE = ('sketch A . h1 . V . h2 . B: V a vanishing construct (or a chain of them
         'gap between A and B in the plain text must be GLUED / SPACE / PARAGRAPH as given by a '
         'reference that reads the source like TeX (line ends, comments, blanks after control '
         'words, blank lines).')
-BOUNDS = {'quick': '22 vanishing constructs / chains x holes <= 3 characters each',
+BOUNDS = {'quick': '27 vanishing constructs / chains (incl. calls of user macros with multi-line bodies) x holes <= 3 characters each',
           'thorough': 'holes <= 4 characters'}
 OUTSIDE = 'holes longer than the bound; more than two layout holes per document; white space ' \
           'other than blank, tab, line break'
@@ -45,11 +45,19 @@ VS = {
     'begin_end_unknown': ('\\begin{zzenv}\n\\end{zzenv}', 'brace'),
     'par': ('\\par', 'par'),
     'usepackage': ('\\usepackage{xcolor}', 'brace'),
+    # calls of user macros whose body vanishes; third entry: the definition (before Alpha).
+    # A line break in the body is a blank (TeX), never half of a paragraph break.
+    'macro_body_lines': ('\\qfig{a}', 'brace', '\\newcommand{\\qfig}[1]{\n  \\label{#1}\n}\n'),
+    'macro_body_end_nl': ('\\qfig{a}', 'brace', '\\newcommand{\\qfig}[1]{\\label{#1}\n}\n'),
+    'macro_body_start_nl': ('\\qfig', 'word', '\\newcommand{\\qfig}{\n\\label{x}}\n'),
+    'macro_body_pct': ('\\qfig{a}', 'brace', '\\newcommand{\\qfig}[1]{%\n  \\label{#1}%\n}\n'),
+    'def_body_lines': ('\\qfig', 'word', '\\def\\qfig{\n  \\index{x}\n  \\label{y}\n}\n'),
 }
 
 
 INNER_SPACE = {'label_nl_index', 'label_nl_indent_index', 'three_lines', 'label_comment',
-               'begin_end_unknown'}
+               'begin_end_unknown', 'macro_body_lines', 'macro_body_end_nl', 'macro_body_start_nl',
+               'def_body_lines'}
 
 
 def expected(h1, kind, h2, inner=False):
@@ -88,7 +96,8 @@ def items(tier, seed):
 
 
 def build(item):
-    V, kind = VS[item['v']]
+    V, kind = VS[item['v']][:2]
+    PRE = VS[item['v']][2] if len(VS[item['v']]) > 2 else ''
     L = item['L']
 
     def orc(h1, h2, doc, flat, diags):
@@ -111,7 +120,7 @@ def build(item):
         tail = 0
     w2 = (tail, 1) if tail else (0, 0)
     lmins = (0, 1 if kind in ('word', 'par') else 0)
-    return sketch.make2('Alpha', V, 'Beta', 'SPACE', L, {'pack': '*'}, orc, lmins=lmins,
+    return sketch.make2(PRE + 'Alpha', V, 'Beta', 'SPACE', L, {'pack': '*'}, orc, lmins=lmins,
                         wins=((0, 0), w2), twin=bool(item.get('twin')))
 
 
